@@ -8,7 +8,8 @@ import re
 from ..core import Checker, Rule, attr_calls, callee_is, calls_in, kwarg, resolved_calls, short
 from ..interp import Pins, find_nodes, unparse
 from ..model import AnalysisError
-from .util import effect_table, enclosing_loop, enclosing_stmt, enum_members, every_iteration_reaches, fmt, inline_displays, is_const, parent, returns_of, same, single_def
+from ..nform import canon_expr
+from .util import effect_table, enclosing_loop, enclosing_stmt, enum_members, every_iteration_reaches, fmt, inline_displays, is_const, parent, returns_of, same, scan_parts, single_def, contributions
 
 P = ("C12", "C01", "C06")
 PG = ("C12", "C02", "C01")
@@ -268,21 +269,19 @@ def _g_rows(ck: Checker, name: str, which: str) -> None:
         mmp = [n for n in find_nodes(func.node, lambda n: isinstance(n, ast.Assign)) if unparse(n.targets[0]) == "minmaxpred" and isinstance(n.value, ast.Tuple)]  # type: ignore[attr-defined]
         ck.need(len(mmp) == 1, "minmaxpred chosen at one site")
         ck.guard("minimize: G4 no other objective tuple may unify", func, mmp[0], "not unsafe", "two weak constraints with the same tuple count once; the chain tuples must stay distinct from every other objective")
-        ext = [c for c in attr_calls(func, "extend") if unparse(c.func.value) == "unsafe"]  # type: ignore[attr-defined]
-        ck.need(len(ext) == 1, "unsafe objectives collected at one site")
-        ck.guard("minimize: unsafe = objectives whose tuple may unify", func, ext[0], "potentially_unifying_sequence(terms, term_tuple)", "")
-        lp = enclosing_loop(func, ext[0])
-        ck.need(lp is not None and isinstance(lp.target, ast.Tuple), "loop over (tuple, objectives)")
-        objs = unparse(lp.target.elts[1])  # type: ignore[union-attr]
-        comp = unparse(ext[0].args[0]).replace(" ", "")
-        comp_full = unparse(ext[0].args[0])
-        ck.add("minimize: only the statement itself is exempt from the uniqueness test", same(comp_full, f"[x for x in {objs} if x != {stm}]"), func, ext[0], f"collected: `{comp}`",
-               "another objective with the syntactically identical tuple sits under the same key: skipping the whole entry lets a duplicate tuple be counted twice after the rewrite")
-        ck.add("minimize: every objective of the program is compared", unparse(lp.iter) == "minimizes.items()", func, lp, f"loop over `{unparse(lp.iter)}`", "")
-        gate = parent(func, enclosing_stmt(func, ext[0]))
-        keys = it.texts(gate, gate.test) if isinstance(gate, ast.If) else set()  # type: ignore[arg-type]
-        okk, n = every_iteration_reaches(ck, func, lp, ext[0], Pins.of(facts={k: True for k in keys}))
-        ck.add("minimize: every potentially unifying objective is collected", okk and n > 0, func, ext[0], f"under a positive unification test every iteration collects: {okk}", "")
+        contrib = contributions(func, "unsafe")
+        ck.need(len(contrib) == 1, "unsafe objectives collected at one site")
+        usite, comp_full = contrib[0]
+        parts = scan_parts(comp_full)
+        ck.need(parts is not None and len(parts["gens"]) == 2 and "," in parts["gens"][0]["target"], "unsafe objectives: scan over (tuple, objectives) entries and their objectives")  # type: ignore[index,arg-type]
+        g0, g1 = parts["gens"]  # type: ignore[index,misc]
+        terms, objs = [t.strip() for t in g0["target"].strip("()").split(",")]
+        ck.add("minimize: every objective of the program is compared", g0["iter"] == "minimizes.items()", func, usite, f"scan over `{g0['iter']}`", "")
+        ck.add("minimize: unsafe = objectives whose tuple may unify", [canon_expr(x) for x in g0["ifs"]] == [canon_expr(f"potentially_unifying_sequence({terms}, term_tuple)")], func, usite, f"entry filter {g0['ifs']}",
+               "every entry whose tuple may unify must be looked at, and only those")
+        ck.add("minimize: only the statement itself is exempt from the uniqueness test", g1["iter"] == objs and parts["elt"] == g1["target"] and [canon_expr(x) for x in g1["ifs"]] == [canon_expr(f"{g1['target']} != {stm}")], func, usite,  # type: ignore[index]
+               f"collected: `{comp_full}`", "another objective with the syntactically identical tuple sits under the same key: skipping the whole entry lets a duplicate tuple be counted twice after the rewrite")
+        ck.add("minimize: every potentially unifying objective is collected", enclosing_loop(func, usite) is None or unparse(enclosing_loop(func, usite).iter) != g0["iter"], func, usite, "the scan is one unconditional pass over the entries", "", nontrivial=False)  # type: ignore[union-attr]
         tt = single_def(func, "term_tuple")
         ck.add("minimize: compared tuple = (weight, priority, *terms)", tt is not None and unparse(tt).replace(" ", "").replace(",)", ")") == f"({stm}.weight,{stm}.priority,*{stm}.terms)", func, site, f"term_tuple=`{unparse(tt) if tt is not None else None}`", "")
     else:
@@ -290,7 +289,7 @@ def _g_rows(ck: Checker, name: str, which: str) -> None:
         its = ck.interp(split)
         mmp = [n for n in find_nodes(split.node, lambda n: isinstance(n, ast.Assign)) if unparse(n.targets[0]) == "minmaxpred" and isinstance(n.value, ast.Tuple)]  # type: ignore[attr-defined]
         ck.need(len(mmp) == 1, "minmaxpred chosen at one site in _split_element")
-        k = [key for key, v in its.known(mmp[0]) if v is False and key.startswith("any(map(lambda x: potentially_unifying_sequence(x.terms, elem.terms), rest_elems))")]
+        k = [key for key, v in its.known(mmp[0]) if v is False and key.startswith(canon_expr("any(map(lambda x: potentially_unifying_sequence(x.terms, elem.terms), rest_elems))"))]
         ck.add("sum element: G4 no sibling element may unify", bool(k), split, mmp[0], f"dominating fact: {k}", "inside one aggregate tuples are a set: a sibling tuple that unifies would merge with a chain tuple")
         call = resolved_calls(ck.prg, ck.func(f"{CLS}._replace_results_in_sum_agg"), f"ngo.{CLS}._replace_results_in_sum_agg_elem")
         ck.need(len(call) == 1, "_replace_results_in_sum_agg calls the element replacement")
